@@ -49,6 +49,7 @@ type Stmt struct {
 	// label
 	Name string `json:"name,omitempty"`
 	G    bool   `json:"g,omitempty"`
+	LMod bool   `json:"lmod,omitempty"` // written with an explicit (local) modifier
 	// if
 	Arms    []Arm  `json:"arms,omitempty"`
 	Els     []Stmt `json:"els,omitempty"`
